@@ -14,6 +14,20 @@ Domain : as C01 (vf.pipeline configurations: Colang 1.0 / 2.x, dialog rails on/o
          `<think>LM{t}C{k}Z THK{t}C{k}Z ...</think>` followed by the usual completion (the marker is inside AND after the
          block; `THK..Z` marks the block alone).  Not applied to the Colang 2.x flow-continuation completions (a leading
          block there is a syntax error of the generated flow - C17's subject).
+         Turn key `long` ({"n": length, "place": "head"|"tail"}): the LLM's fresh message texts of the turn are very long
+         (3000 .. 48000 characters; most of them longer than half, many longer than the whole of the 16000 characters the
+         prompt of the shipped `self check output` rail may have) with checked material at BOTH ends: place "head" =
+         `LM{t}C{k}Z words ... END{t}C{k}Z`, place "tail" = `BEG{t}C{k}Z words ... LM{t}C{k}Z` (the marker the rails' verdicts
+         hang on ends the text).  A rail that cannot take the text may fail - then the turn is answered without the text
+         (refusal / internal-error message, "fail closed") and no obligation arises; whatever IS returned was shown to the
+         rails from its first to its last character.
+         Colang 1.0 configurations with dialog rails: `enable_multi_step_generation: True` (configuration key "ext": "c02-ms";
+         the generate_next_steps completion is parsed and started as a flow) and turn key `steps` (routes next_llm /
+         next_predef - user intents no flow handles): the generate_next_steps completion carries the bot message INLINE
+         (`bot inform time` + an indented quoted text, alone / followed by a predefined step / after one, or the text on the
+         same line) - for a bot intent without predefined message (next_llm) or with one (next_predef).  That text is LLM text
+         of the turn like any other: if it (or any part) is returned, now or in a later turn that utters the same bot intent,
+         it must have passed the output rails of that turn.  `steps` is also generated with multi-step generation off.
          Colang 2.x route `par` (configuration key "ext": "c02-par", dialog True): `vf llm reply and vf llm reply` - two
          LLM texts obtained and said IN PARALLEL (and-group).  Generated only when PARALLEL_ROUTE is on (see there).
 Oracle : reference model of the output chain (vf.pipeline.model_output) per LLM-generated text, memoryless over
@@ -25,7 +39,9 @@ Oracle : reference model of the output chain (vf.pipeline.model_output) per LLM-
              exception is present;
            * whatever output-rail invocations happened on an LLM text follow the configured order;
            * a part of the completion (the reasoning block) that shows up in the reply was in the text every rail that
-             judged the un-rewritten completion was given (a part no rail saw is unchecked LLM text).
+             judged the un-rewritten completion was given (a part no rail saw is unchecked LLM text); likewise the two ends
+             of a long completion: an end that shows up in the reply was given to each of those rails (in any of the rail's
+             invocations of the turn, so handing a long text over piece by piece is fine as long as no piece is left out).
 Not asserted (DESIGN 4/C02 S): output rails on messages produced by rails themselves or on predefined messages;
          an LLM text that is generated but never uttered (no obligation arises); Colang 2.x rewriting.
 Found by this check on the original tree and fixed in /repo since: C02-F1 (v2 `$output_rails_in_progress` stuck after an
@@ -59,10 +75,20 @@ RULE = (
     "or a call whose options leave them on ({}, {output: True}, {input: False}, full rails list, log options); the call that switched "
     "them off is exempt, every other call is judged as ever. In a quarter of the turns (not for Colang 2.x flow-continuation "
     "completions) the LLM's message completions START with a reasoning block <think>marker THK-marker words</think> (one or several "
-    "lines) followed by the usual completion, so checked material sits inside and after the block. Colang 2.x route par (two LLM "
+    "lines) followed by the usual completion, so checked material sits inside and after the block. Body shape 'very long completion "
+    "with head and tail markers' (turn key long; a third of the turns of configurations with the shipped self check output rail, a "
+    "twelfth elsewhere): the fresh message texts of the turn have a drawn length of 3000..48000 characters (<= half of the rail "
+    "prompt's max_length 16000 as control, around half, between half and whole, around the whole, beyond) with the LLM marker at the "
+    "start and an END marker as last word, or a BEG marker first and the LLM marker as last word. Colang 1.0 with dialog rails: a third "
+    "of the configurations enable multi-step generation (routes then favour user intents no flow handles); in three quarters of the "
+    "next_llm/next_predef turns of those (and of a third of the other dialog configurations) the generate_next_steps completion carries "
+    "the bot message inline (step + indented quoted text; + a predefined step after / before it; text on the same line) for a bot "
+    "intent without (next_llm) or with (next_predef) a predefined message, and the same intents are uttered again in later turns "
+    "with and without inline text. Colang 2.x route par (two LLM "
     "replies said in parallel, hand-written rails) only while PARALLEL_ROUTE is on. Non-trivial = at least 2 turns and a reject or rewrite by an output rail in a turn strictly before the "
     "last turn that generated an LLM message, or a repeated LLM text in a conversation with a reject/rewrite, or a call with the output "
-    "rails switched off before a later call with them on that generated an LLM message; distinct by the whole case."
+    "rails switched off before a later call with them on that generated an LLM message, or an over-long completion that made the "
+    "self-check rail fail (turn answered without the text) before a later turn that generated an LLM message; distinct by the whole case."
 )
 ASSUMPTIONS = [
     "rail actions are fakes (register_action); they apply their verdict to texts with an LLM lineage and accept anything else (refusals, predefined messages)",
@@ -70,6 +96,8 @@ ASSUMPTIONS = [
     "an LLM text that never shows up in the reply creates no obligation (e.g. v1 drops the second bot message of a flow once output rails are configured)",
     "generation options are per call (documented): a call without options, or with options that do not disable the output rails, runs all configured output rails whatever the options of earlier calls of the conversation were; options are generated for Colang 1.0 only (the docs list them as unsupported for 2.x) and always keep the dialog rails on",
     "a reasoning block the LLM puts in front of its completion is LLM text like the rest: an implementation may drop it, but whatever part of the completion is returned must have been given to the output rails, and nothing of a rejected completion may be returned",
+    "a completion may be longer than an output rail can take (the shipped self check output rail renders it into a prompt of at most 16000 characters): the rail may then fail and the turn be answered with a refusal / the internal-error message - nothing is asserted about such a turn except that the text is absent; a text that IS returned was given to every rail of the chain completely (both ends), in one or several invocations",
+    "a bot message text that the LLM writes into its generate_next_steps completion (inline, under the bot step) is LLM text of that turn: the implementation may ignore it (the unchanged tree does: it asks for the message again), no obligation arises unless the text reaches a reply",
     "a turn that needs more than 100 internal events makes the Colang 1.0 runtime raise `Too many events.`; such cases are counted as skipped",
 ]
 
@@ -119,11 +147,58 @@ def mk_think(t, k):
     return f"THK{t}C{k}Z"
 
 
+def mk_beg(t, k):
+    """Marker at the very beginning of a long completion whose LLM marker sits at its end (turn key "long", place "tail")."""
+    return f"BEG{t}C{k}Z"
+
+
+def mk_end(t, k):
+    """Marker at the very end of a long completion whose LLM marker sits at its beginning (turn key "long", place "head")."""
+    return f"END{t}C{k}Z"
+
+
+def long_text(t, k, body, n, place):
+    """Message text of exactly `n` characters (if n leaves room): first marker, body, filler made of the body's words, last marker.
+    place "head": `LM{t}C{k}Z ... END{t}C{k}Z`; place "tail": `BEG{t}C{k}Z ... LM{t}C{k}Z` (the checked material ends the text)."""
+    first, last = (fakes.mk_llm(t, k), mk_end(t, k)) if place == "head" else (mk_beg(t, k), fakes.mk_llm(t, k))
+    head, tail = f"{first} {body} ", f" {last}"
+    room = max(0, int(n) - len(head) - len(tail))
+    unit = f"{body} and "
+    return head + (unit * (room // len(unit) + 1))[:room] + tail
+
+
+NEXT_STEPS_SHAPES = ("inline", "inline+predef", "predef+inline", "sameline")
+
+
 class _Session(fakes.Session):
     """Turn key "think" (text): the message completions of the turn start with `<think>...</think>`, then the usual
-    completion follows.  The block carries the marker(s) of the message text AND its own marker(s)."""
+    completion follows.  The block carries the marker(s) of the message text AND its own marker(s).
+    Turn key "long" ({"n": length, "place": "head" | "tail"}): the fresh message texts of the turn are `long_text`s.
+    Turn key "steps" (one of NEXT_STEPS_SHAPES; routes next_llm / next_predef): the generate_next_steps completion carries
+    the bot message INLINE - the bot step followed by an indented quoted text (or the text on the same line) - alone, followed
+    by a predefined step or after one."""
+
+    def message_text(self, turn, k, body):
+        text = super().message_text(turn, k, body)
+        lg = self.turns[turn].get("long") if turn < len(self.turns) else None
+        if lg and text == f"{fakes.mk_llm(turn, k)} {body}":  # a fresh text (a repeated one stays verbatim)
+            text = long_text(turn, k, body, lg["n"], lg.get("place", "head"))
+            self.message_texts[turn][-1] = text
+        return text
 
     def llm_answer(self, task, prompt, turn, k):
+        shape = self.turns[turn].get("steps") if turn < len(self.turns) else None
+        if task == "generate_next_steps" and shape and (turn, k) not in self.override:
+            step = "bot " + fakes.NEXT_STEP.get(self.route(turn), "inform something")
+            # (the inline text is an ordinary, short message text of the turn: a later `repeat_llm` turn may produce it again)
+            msg = fakes.Session.message_text(self, turn, k, self.turns[turn].get("body", "generated words"))
+            if shape == "sameline":
+                return f'{step} "{msg}"'
+            if shape == "inline+predef":
+                return f'{step}\n  "{msg}"\nbot offer help'
+            if shape == "predef+inline":
+                return f'bot express greeting\n{step}\n  "{msg}"'
+            return f'{step}\n  "{msg}"'
         ans = super().llm_answer(task, prompt, turn, k)
         th = self.turns[turn].get("think") if turn < len(self.turns) else None
         if th and task in ("generate_bot_message", "general"):
@@ -151,6 +226,33 @@ def _par_build_config(cfg, colang, yaml_text):
 
 
 pipeline.register_extension(EXT_PAR, build_config=_par_build_config)
+
+# Colang 1.0: multi-step generation (the generate_next_steps completion is parsed and started as a flow)
+EXT_MS = "c02-ms"
+
+
+def _ms_build_config(cfg, colang, yaml_text):
+    import yaml
+
+    y = yaml.safe_load(yaml_text)
+    y["enable_multi_step_generation"] = True
+    return colang, yaml.safe_dump(y, sort_keys=False)
+
+
+pipeline.register_extension(EXT_MS, build_config=_ms_build_config)
+
+# lengths of long completions: around half of the self-check prompt's default max_length (16000), between half and whole,
+# around the whole, far beyond; a few moderately long ones as control
+HALF, FULL = 8000, 16000
+_ST_LONG_N = st.one_of(
+    st.integers(3000, HALF),
+    st.integers(HALF - 100, HALF + 300),
+    st.integers(HALF + 1, FULL - 500),
+    st.integers(HALF + 1, FULL - 500),
+    st.integers(FULL - 500, FULL + 500),
+    st.integers(FULL + 1, 3 * FULL),
+    st.sampled_from([HALF + 1, HALF + 2, FULL - 200, FULL + 1, 2 * FULL + 1, 3 * HALF, 5 * HALF + 7]),
+)
 
 
 def _parallel_route_on():
@@ -183,6 +285,14 @@ def _case(draw):
     if v == 2 and cfg["dialog"] is True and cfg["style"] == "hand" and _parallel_route_on() and draw(st.booleans()):
         cfg["ext"] = EXT_PAR
         routes = tuple(routes) + ("par", "par", "par")
+    multi_step = v == 1 and cfg["dialog"] is True and draw(st.sampled_from([False, False, True]))
+    if multi_step:
+        cfg["ext"] = EXT_MS
+    # the LLM is asked for the next step(s) on the next_* routes only: more of them where the completion is parsed as a flow
+    inline_routes = v == 1 and cfg["dialog"] is True and (multi_step or draw(st.sampled_from([False, False, True])))
+    if inline_routes:
+        routes = tuple(routes) + ("next_llm",) * (6 if multi_step else 2) + ("next_predef",) * (2 if multi_step else 1)
+    p_long = [False, False, True] if "self" in cfg["out"] else [False] * 11 + [True]
     with_options = v == 1 and draw(st.sampled_from([False, False, True]))
     can_think = not (v == 2 and cfg["dialog"] == "llmc")
     turns = []
@@ -208,6 +318,12 @@ def _case(draw):
         if can_think and draw(st.sampled_from([False, False, False, True])):
             words = draw(pipeline.st_body())
             turns[-1]["think"] = words if draw(st.booleans()) else f"{words}\n{draw(pipeline.st_body())}\n"
+        if inline_routes and turns[-1]["route"] in ("next_llm", "next_predef") and draw(st.sampled_from([True, True, True, False])):
+            # the completion that names the next step carries the bot message with it
+            turns[-1]["steps"] = draw(st.sampled_from(NEXT_STEPS_SHAPES[:3] * 2 + NEXT_STEPS_SHAPES[3:]))
+        if draw(st.sampled_from(p_long)):
+            # a very long completion: checked material at its beginning and its end
+            turns[-1]["long"] = {"n": draw(_ST_LONG_N), "place": draw(st.sampled_from(["head", "tail"]))}
     return {"config": cfg, "turns": turns, "api": draw(st.sampled_from(["sync", "async"]))}
 
 
@@ -318,6 +434,51 @@ def enumerate_cases(tier):
                                     turns[-1]["think"] = think
                             yield {"config": cfg, "turns": turns, "api": "sync"}
 
+    # Colang 1.0: the next-step completion carries the bot message inline (multi-step generation on, and off), the same
+    # bot intent is uttered again in the following turns (with and without an inline message), then an ordinary LLM turn
+    for ms, kinds, exc in ((True, ["check"], False), (True, ["both", "self"], True), (False, ["check"], False)):
+        cfg = {"v": 1, "in": [], "out": kinds, "dialog": True, "exc": exc, "ret": 0}
+        if ms:
+            cfg["ext"] = EXT_MS
+        A = ["accept"] * len(kinds)
+        events = [A, A[:-1] + ["reject"]] + ([["rewrite"] + A[1:]] if kinds[0] == "both" else [])
+        for shape in NEXT_STEPS_SHAPES:
+            for ev in events:
+                for first in ("next_llm", "next_predef") if ev is A else ("next_llm",):
+                    turns = []
+                    for t, (route, out, steps) in enumerate([(first, ev, shape), ("next_llm", A, None), ("next_llm", ev, shape), ("llm", A, None)]):
+                        turns.append({"user": f"{fakes.mk_user(t)} what time is it", "route": route, "in": [], "out": out, "body": "some answer"})
+                        if steps:
+                            turns[-1]["steps"] = steps
+                    yield {"config": cfg, "turns": turns, "api": "sync"}
+
+    # very long completions (longer than half / than the whole of the self-check prompt's max_length), checked material at the
+    # beginning and at the very end, for every single-turn event; a short turn before and after
+    n = 0
+    sizes = (HALF + 1, HALF + 500, 12000, FULL - 300, FULL + 1, 2 * FULL + 1, 20000, 3 * FULL + 77)
+    combos = (
+        (1, False, ["self"], False), (1, False, ["check", "self"], True), (1, True, ["self"], True), (1, True, ["self", "both"], False),
+        (2, False, ["self"], False), (2, True, ["check", "self"], True), (2, "llmc", ["self"], False),
+    )
+    for v, dialog, kinds, exc in combos:
+        cfg = {"v": v, "in": [], "out": kinds, "dialog": dialog, "exc": exc}
+        if v == 2:
+            cfg["style"] = "hand" if dialog is True else "config"
+        else:
+            cfg["ret"] = 0
+        A = ["accept"] * len(kinds)
+        R = ["reject" if k == "self" else "accept" for k in kinds]
+        for ev in (A, R):
+            for place in ("head", "tail"):
+                first, second = sizes[n % len(sizes)], sizes[(n + 4) % len(sizes)]  # (one of the two fits the prompt of the self-check rail, the other cannot)
+                n += 1
+                turns = []
+                for t, (out, lg) in enumerate([(A, None), (ev, {"n": first, "place": place}), (A, {"n": second, "place": place}), (A, None)]):
+                    turns.append({"user": f"{fakes.mk_user(t)} how is the weather", "route": "llm", "in": [], "out": out, "body": "some answer"})
+                    if lg:
+                        turns[-1]["long"] = lg
+                yield {"config": cfg, "turns": turns, "api": "sync"}
+
     # Colang 2.x: two LLM replies said in parallel (see PARALLEL_ROUTE)
     if _parallel_route_on():
         for exc in (False, True):
@@ -365,6 +526,9 @@ def _check(case, obs):
         labels.append("passthrough" + ("+dialog" if cfg["dialog"] else ""))
     if any(spec.get("options") is not None for spec in case["turns"]):
         labels.append("conversation-with-generation-options")
+    if cfg.get("ext") == EXT_MS:
+        labels.append("multi-step-generation")
+    failed_closed_at = []  # turns whose over-long LLM completion was answered with a refusal / the internal-error message
     off_turns = []  # calls served with the output rails switched off (nothing asserted about them)
     checked_after_off = False
     events_at = []  # turns in which an output rail rejected or rewrote an LLM text
@@ -380,7 +544,12 @@ def _check(case, obs):
         text = pipeline.reply_text(o)
         excs = pipeline.reply_exceptions(o)
         in_reply = fakes.lineage(text)
-        generated = pipeline.generated_texts(o)
+        messages = pipeline.generated_texts(o)  # texts of the LLM's message completions
+        # a message text the LLM wrote into its next-step completion is LLM text of this turn like any other
+        inline = [ln for c in o["llm"] if c["task"] == "generate_next_steps" and c["answer"] is not None for ln in fakes.lineage(c["answer"])]
+        generated = messages + [ln for ln in inline if ln not in messages]
+        if inline:
+            labels.append("next-steps-completion-with-inline-message" + (f"({spec.get('steps')})" if spec.get("steps") else ""))
         what = f"v{v} turn {t} (route {spec['route'] if cfg['dialog'] else 'general'}, out verdicts {spec['out']}" + (f", options {spec['options']}" if spec.get("options") is not None else "") + ")"
         off = not output_selected(spec.get("options"))
         if spec.get("options") is not None:
@@ -389,7 +558,7 @@ def _check(case, obs):
             labels.append("llm-completion-with-think-block" + ("(multi-line)" if "\n" in spec["think"] else ""))
         if spec.get("route") == "par" and cfg["dialog"]:
             labels.append("v2-parallel-llm-replies")
-        if generated and not off:
+        if messages and not off:
             llm_turns.append(t)
             if off_turns:
                 checked_after_off = True
@@ -432,6 +601,18 @@ def _check(case, obs):
                             f"{tag}: the reply carries the reasoning block of the completion ({part}) but rail {c['rail']} was given a text without it: {str(e['text'])[:100]!r}; reply {text[:160]!r}",
                             _detail(cfg, t, **sig),
                         )
+            # (a'') the same for the two ends of a long completion: an end that reaches the caller was shown to each of those rails
+            #       (in any of its invocations of this turn - an implementation may hand a long text over piece by piece)
+            for part, which in ((mk_beg(tt, k), "beginning"), (mk_end(tt, k), "end")):
+                if part in text:
+                    for c, e in zip(m["calls"], entries):
+                        if c["sees"] == m["orig"] and not any(part in str(x["text"]) for x in out_entries if x["idx"] == e["idx"]):
+                            raise Violation(
+                                "unchecked-llm-text-in-reply",
+                                f"{tag}: the reply ({len(text)} characters) carries the {which} of the long completion ({part}) but rail {c['rail']} was never given it: "
+                                f"it saw {[(len(str(x['text'])), str(x['text'])[:24], str(x['text'])[-24:]) for x in out_entries if x['idx'] == e['idx']]}",
+                                _detail(cfg, t, **sig),
+                            )
             if present_any:
                 # (b) a text that reaches the caller has passed the complete chain ...
                 if len(entries) < m["need"]:
@@ -470,22 +651,37 @@ def _check(case, obs):
                     labels.append("rewrite-then-later-rail")
             if not entries and not present_any:
                 labels.append("llm-text-generated-not-uttered")
+            if ln in inline:
+                labels.append("inline-message:" + ("uttered" if present_any else "not-uttered"))
+            lg = next((str(c["answer"]) for c in o["llm"] if c["answer"] is not None and (mk_beg(tt, k) in str(c["answer"]) or mk_end(tt, k) in str(c["answer"]))), None)
+            if lg is not None:
+                size = "<=half" if len(lg) <= HALF else ("half..max" if len(lg) <= FULL - 200 else ("about-max" if len(lg) <= FULL + 200 else ">max"))
+                outcome = "returned" if present_any else ("rejected" if m["blocked"] is not None and len(entries) >= m["need"] else "not-returned")
+                labels.append(f"long-completion:{size}")
+                labels.append(f"long-completion:{'marker-at-end' if mk_beg(tt, k) in lg else 'marker-at-start'}:{outcome}")
+                if "self" in cfg["out"]:
+                    labels.append(f"long-completion+self-check:{size}:{outcome}")
+                if outcome == "not-returned" and len(entries) < m["need"] and "self" in cfg["out"] and len(lg) > FULL:
+                    failed_closed_at.append(t)  # the text cannot fit into the rail's prompt: the rail failed, the turn was answered without the text
             if spec.get("think"):
                 labels.append("think:" + ("rejected" if m["blocked"] is not None else ("rewritten" if m["final"] != m["orig"] else "passed")) + ("" if present_any or m["blocked"] is not None else "(not uttered)"))
             now = "rejected" if m["blocked"] is not None else ("rewritten" if m["final"] != m["orig"] else "passed")
-            if tt != t:
+            if tt != t and ln in messages:
                 repeated = True
                 labels.append("repeated-llm-text")
                 if ln in fate:
                     labels.append(f"repeat:{fate[ln][1]}-then-{now}" + ("(consecutive-turns)" if fate[ln][0] == t - 1 else ""))
             fate[ln] = (t, now)
-        kind_now = "L" if generated else "P"
+        kind_now = "L" if messages else "P"
         if prev_kind and prev_kind != kind_now:
             labels.append("alternation-" + prev_kind + kind_now)
         prev_kind = kind_now
-        if len(generated) > 1:
+        if len(messages) > 1:
             labels.append("two-llm-messages-in-turn")
-    nt = bool(events_at and llm_turns and min(events_at) < max(llm_turns)) or (repeated and bool(events_at)) or checked_after_off
+    failed_before = bool(failed_closed_at and llm_turns and min(failed_closed_at) < max(llm_turns))
+    if failed_before:
+        labels.append("long-completion-failed-closed-before-later-llm-turn")
+    nt = bool(events_at and llm_turns and min(events_at) < max(llm_turns)) or (repeated and bool(events_at)) or checked_after_off or failed_before
     if nt:
         labels.append("event-before-later-llm-turn")
         if any(e >= 1 for e in events_at):
